@@ -286,12 +286,44 @@ def _worker(args):
         sys.stdout = io.StringIO()        # the library print()s on unknown P2P commands; keep protocol lines clean
         mod = load_module(modname)
         ctx = Ctx(mod, task, tier, seed, shard, nshards, known)
+        cov = _linecov_start() if os.environ.get('VERIF_LINECOV') else None
         dict(mod.TASKS)[task][0](ctx)
+        if cov is not None:
+            _linecov_dump(cov, '%s.%s.%d' % (modname, task, shard))
         r = ctx.result()
         r['wall'] = time.time() - t0
         return ('ok', r)
     except BaseException:
         return ('err', 'task %s shard %d: %s' % (task, shard, traceback.format_exc()))
+
+
+def _linecov_start():
+    """VERIF_LINECOV=<dir>: record which lines of REPO/bitcoin a task executes (sys.monitoring, Python >= 3.12; each line
+    event disables itself after the first hit, so the overhead is small). Measurement only - used by tools/linecov.py to
+    find anchored code a check never reaches; it has no influence on verdicts."""
+    mon = sys.monitoring
+    hit = set()
+    root = os.path.join(REPO, 'bitcoin') + os.sep
+
+    def on_line(code, line):
+        if code.co_filename.startswith(root):
+            hit.add((code.co_filename[len(REPO) + 1:], line))
+        return mon.DISABLE
+    try:
+        mon.use_tool_id(mon.COVERAGE_ID, 'verif-linecov')
+    except ValueError:
+        pass
+    mon.register_callback(mon.COVERAGE_ID, mon.events.LINE, on_line)
+    mon.set_events(mon.COVERAGE_ID, mon.events.LINE)
+    mon.restart_events()              # a pool worker runs several tasks: re-arm locations the previous task disabled
+    return hit
+
+
+def _linecov_dump(hit, tag):
+    d = os.environ['VERIF_LINECOV']
+    os.makedirs(d, exist_ok=True)
+    with open(os.path.join(d, tag + '.json'), 'w') as f:
+        json.dump(sorted(hit), f)
 
 
 def load_module(modname):
